@@ -42,6 +42,10 @@ def canonical(rng):
         algs = rng.sample(range(6), rng.randint(0, 3))
         sz = dgen.size(rng)
         sums = [(a, dgen.hexhash(rng)) for a in algs]
+        if sums and rng.random() < 0.15:
+            # the same algorithm twice, with the same or another hash, adjacent or not: every line is a checksum of its own
+            a0, h0 = rng.choice(sums)
+            sums.insert(rng.randint(0, len(sums)), (a0, h0 if rng.random() < 0.6 else dgen.hexhash(rng)))
         for a, h in sums:
             out += dgen.sum_line(a, nm, h)
         out += dgen.size_line(nm, sz)
@@ -70,6 +74,13 @@ def generate(rng, tier):
         # the same content assembled through the API
         cases.append(Case("di.build", [("N" if rcs == b"$NetBSD$" and rng.random() < 0.5 else enc(rcs))] + [ent_arg(*e) for e in ents],
                           meta={"text": text, "nt": nt, "api": True, "rcs": rcs}))
+        if ents and rng.random() < 0.25:
+            # inserting a second entry under an equal path (same components, another spelling: doubled '/', './', or the
+            # identical name) replaces the first in place; what is written is the entry now stored
+            nm, sz, sums = rng.choice(ents)
+            alt = rng.choice([nm, nm.replace(b"/", b"//", 1), b"./" + nm, nm.replace(b"/", b"/./", 1)])
+            e2 = (alt, dgen.size(rng) if sz is not None else None, [(a, dgen.hexhash(rng)) for a, _ in sums][: rng.randint(0, 3)] or sums[:1])
+            cases.append(Case("di.build", [enc(rcs)] + [ent_arg(*e) for e in ents] + [ent_arg(*e2)], meta={"nt": True, "api2": True}))
     return cases
 
 
@@ -84,7 +95,7 @@ def laws(cases, obsI):
             continue
         if c.op == "di.roundtrip" and obsI[i] != c.args[0]:
             out.append({"kind": "parse-write-roundtrip", "idxs": [i], "detail": "as_bytes(from_bytes(x)) != x"})
-        if c.op == "di.build" and obsI[i].startswith("B="):
+        if c.op == "di.build" and "text" in c.meta and obsI[i].startswith("B="):
             b = obsI[i][2:].split("#")[0]
             if b != enc(c.meta["text"]):
                 out.append({"kind": "api-write", "idxs": [i], "detail": "API-built Distinfo does not print the canonical text"})
